@@ -80,7 +80,9 @@ func ReadMountProfile(reader io.Reader) (*MountProfile, error) {
 	scanner := bufio.NewScanner(reader)
 	for scanner.Scan() {
 		s := scanner.Text()
-		s = strings.TrimSpace(s)
+		// Only space and tab separate fields (see ParseMountEntry); any other
+		// white space is part of a field and must survive the round trip.
+		s = strings.Trim(s, " \t")
 		// Skip lines that only contain a comment, that is, those that start
 		// with the '#' character (ignoring leading spaces). This specifically
 		// allows us to parse '#' inside individual fields, which the fstab(5)
